@@ -268,3 +268,42 @@ func c20r2(rc *core.RC) {
 		rc.Unknown("decoder/DecodePath-field-lookups", token.NoPos, "no Path.Field call found in a DecodePath method")
 	}
 }
+
+// ---- C20.R3 integer texts are parsed in base 10 ----
+
+// JSON numbers and JSON Path indexes are decimal. Every strconv.ParseInt/ParseUint call of the
+// library must pass the constant base 10: base 0 accepts 0x/0o/0b prefixes and underscores and
+// reads a leading zero as octal.
+func c20r3(rc *core.RC) {
+	p := rc.P
+	n := 0
+	for _, short := range []string{"decoder", "encoder", "json", "runtime"} {
+		for _, fd := range p.Funcs(short) {
+			if fd.Body == nil {
+				continue
+			}
+			info := p.Info(fd)
+			fn := p.FuncName(fd)
+			k := 0
+			ast.Inspect(fd.Body, func(m ast.Node) bool {
+				c, ok := m.(*ast.CallExpr)
+				if !ok || len(c.Args) != 3 {
+					return true
+				}
+				name := core.CalleeName(info, c)
+				if name != "strconv.ParseInt" && name != "strconv.ParseUint" {
+					return true
+				}
+				n++
+				k++
+				rc.Touch(fn)
+				base, ok := core.ConstInt(info, c.Args[1])
+				rc.Check(ok && base == 10, fmt.Sprintf("%s/%s#%d base", fn, strings.TrimPrefix(name, "strconv."), k), c.Pos(), "the text is parsed with base `%s`; JSON numbers and path indexes are decimal (base 0 reads 010 as 8 and accepts 0x1, 0b1, 1_0)", core.Src(p.Fset, c.Args[1]))
+				return true
+			})
+		}
+	}
+	if n < 3 {
+		rc.Unknown("strconv-integer-parses", token.NoPos, "found %d strconv.ParseInt/ParseUint calls", n)
+	}
+}
